@@ -99,13 +99,26 @@ def latestViolations (c : BandCfg) : List (Int × String) :=
 def allCells (c : BandCfg) : List (Nat × Nat × Int × Int × Int) :=
   c.maxPayload.flatMap fun (v, revs) => revs.flatMap fun (r, cells) => cells.map fun (d, m, n) => (v, r, d, m, n)
 
-/-- the cell the property's fallback rule selects: the tables of the requested protocol version if the band lists it, else
-those of "latest"; within them the requested revision if listed, else "latest" -/
+/-- keys by kind (indices into `payloadKeys`): a protocol version (or "latest") / a regional-parameters revision (or "latest") -/
+def isVersionKey (k : Nat) : Bool := k ≤ keyLatest
+def isRevisionKey (k : Nat) : Bool := k ≥ keyLatest && k < payloadKeys.length
+
+/-- the cell the property's fallback rule selects: the tables of the requested protocol version if it is one and the band lists
+it, else those of "latest" (so also for any string that is not a protocol version); within them the requested revision if it
+is one and is listed, else "latest" -/
 def maxPayloadCell (c : BandCfg) (ver rev : Nat) (dr : Int) : Option (Int × Int) :=
-  let byVer := (c.maxPayload.find? (·.1 == ver)).orElse fun _ => c.maxPayload.find? (·.1 == keyLatest)
+  let latestV := c.maxPayload.find? (·.1 == keyLatest)
+  let byVer := if isVersionKey ver then (c.maxPayload.find? (·.1 == ver)).orElse fun _ => latestV else latestV
   byVer.bind fun (_, revs) =>
-    let byRev := (revs.find? (·.1 == rev)).orElse fun _ => revs.find? (·.1 == keyLatest)
+    let latestR := revs.find? (·.1 == keyLatest)
+    let byRev := if isRevisionKey rev then (revs.find? (·.1 == rev)).orElse fun _ => latestR else latestR
     byRev.bind fun (_, cells) => (cells.find? (·.1 == dr)).map fun (_, m, n) => (m, n)
+
+/-- tables are filed under keys of the right kind: protocol versions (or "latest") on the outside, revisions (or "latest") inside.
+A table under a key of the wrong kind is unreachable through the lookup the property describes. -/
+def keyKindViolations (c : BandCfg) : List (Nat × Nat) :=
+  c.maxPayload.flatMap fun (v, revs) =>
+    (if isVersionKey v then [] else [(v, keyLatest)]) ++ revs.filterMap fun (r, _) => if isRevisionKey r then none else some (v, r)
 
 /-- `(0,0)` is the Regional Parameters' "N/A" (data-rate not available under this dwell-time), not a size -/
 def isNA (m n : Int) : Bool := m == 0 && n == 0
